@@ -105,3 +105,25 @@ Definition T_header_decode : Prop := forall (h : hdr) (src : bytes),
         Some (Z.of_nat n, true, d, di, m, r)
   | Panic => False
   end.
+
+(* header.encode (with msglen, Type, Valid) = Codec.Impl.hdr_encode: never panics; refuses - without touching the
+   destination - a destination that is too short, a remaining length out of range and an invalid type; otherwise writes
+   the type/flags byte and the minimal encoding of the remaining length at the start of the destination *)
+Definition T_header_encode : Prop := forall (h : hdr) (dst : bytes),
+  match hdr_encode h (length dst) with
+  | Ok bs =>
+      go_message_encode (dirty h) [Z.of_N (tf h)] (Z.of_N (remlen h)) (zb dst) =
+      Some (Z.of_nat (length bs), false, dirty h, [Z.of_N (tf h)], zb (bs ++ skipn (length bs) dst))
+  | Err _ _ =>
+      go_message_encode (dirty h) [Z.of_N (tf h)] (Z.of_N (remlen h)) (zb dst) =
+      Some (0%Z, true, dirty h, [Z.of_N (tf h)], zb dst)
+  | Panic => False
+  end.
+
+(* header.SetRemainingLength = Codec.Impl.set_remlen *)
+Definition T_SetRemainingLength : Prop := forall (h : hdr) (r : N),
+  go_message_SetRemainingLength (dirty h) (Z.of_N (remlen h)) (Z.of_N r) =
+  Some (match set_remlen h r with
+        | Some h' => (false, dirty h', Z.of_N (remlen h'))
+        | None => (true, dirty h, Z.of_N (remlen h))
+        end).
